@@ -161,6 +161,10 @@ SEPS = [' ', '\n', ' /*a\u2028b\u2029*/ ', '\r\n', ' /*c*/ ', '  // x\n']
 def main(run, tier):
     from . import parsefwd
     parsefwd.add(run, tier, positions=True)
+    # the two position primitives every setpos / token-handler call rests on, for all integers (contracts/positions.py)
+    from ..e1run import verify_functions as _vfp
+    import contracts.positions as _cpos
+    _vfp(run, _cpos.build(importlib.import_module('calmjs.parse.asttypes')), {}, {}, tier=tier)
     # what a token fragment records: the two token handlers (contracts/tokenhandlers.py)
     from ..e1run import verify_functions as _vf
     import contracts.tokenhandlers as _cth
